@@ -162,12 +162,15 @@ mod verif_battery_c19_log {
         for max_count in [1u16, 2, 3] {
             let dir = std::env::temp_dir().join(format!("verif_c19_roll_{}_{}", max_count, std::process::id()));
             let _ = std::fs::remove_dir_all(&dir);
-            let logger = RollingLogger::create_new(dir.clone(), String::from("verif"), 200, max_count);
-            for i in 0..40 {
-                logger.write(log::Level::Info, format!("message number {:04} {}", i, "x".repeat(80))).unwrap();
-                std::thread::sleep(std::time::Duration::from_millis(2));
-                let n = std::fs::read_dir(&dir).unwrap().count();
-                assert!(n <= max_count as usize, "{} log files on disk with max_log_file_count = {}", n, max_count);
+            for name in ["verif", "ProxyAgent.Connection", "UPPER.lower.Mixed"] {
+                let _ = std::fs::remove_dir_all(&dir);
+                let logger = RollingLogger::create_new(dir.clone(), String::from(name), 200, max_count);
+                for i in 0..40 {
+                    logger.write(log::Level::Info, format!("message number {:04} {}", i, "x".repeat(80))).unwrap();
+                    std::thread::sleep(std::time::Duration::from_millis(2));
+                    let n = std::fs::read_dir(&dir).unwrap().count();
+                    assert!(n <= max_count as usize, "{} log files of {} on disk with max_log_file_count = {}", n, name, max_count);
+                }
             }
             let _ = std::fs::remove_dir_all(&dir);
         }
@@ -247,6 +250,31 @@ mod verif_battery_c19_dumps {
             if existing >= max { assert!(!dir.join("AuthorizationRules_2020-01-01T00.00.00.000-0.json").exists(), "the oldest dump survived"); }
             let _ = std::fs::remove_dir_all(&dir);
         }
+    }
+
+    #[test]
+    fn c19_the_oldest_rule_dump_goes_first_whatever_the_rules_say() {
+        use crate::key_keeper::key::AuthorizationItem;
+        let item = |mode: &str| Some(ComputedAuthorizationItem::from_authorization_item(AuthorizationItem { defaultAccess: "deny".to_string(), mode: mode.to_string(), rules: None, id: mode.to_string() }));
+        let dir = std::env::temp_dir().join(format!("verif_c19_dump_order_{}", std::process::id()));
+        let _ = std::fs::remove_dir_all(&dir);
+        std::fs::create_dir_all(&dir).unwrap();
+        let max = 2usize;
+        let mut written: Vec<std::path::PathBuf> = Vec::new();
+        // rule sets change between every two dumps, in both alphabetical directions
+        for (step, mode) in ["enforce", "enforce", "audit", "audit", "disabled", "enforce", "audit", "disabled", "disabled"].iter().enumerate() {
+            let before: std::collections::HashSet<_> = std::fs::read_dir(&dir).unwrap().flatten().map(|e| e.path()).collect();
+            let rules = AuthorizationRulesForLogging::new(None, ComputedAuthorizationRules { imds: item(mode), wireserver: item(mode), hostga: item(mode) });
+            rules.write_all(&dir, max);
+            std::thread::sleep(std::time::Duration::from_millis(3));
+            let after: std::collections::HashSet<_> = std::fs::read_dir(&dir).unwrap().flatten().map(|e| e.path()).collect();
+            let new: Vec<_> = after.difference(&before).cloned().collect();
+            assert_eq!(1, new.len(), "step {}: exactly one new dump", step);
+            written.push(new[0].clone());
+            let newest: std::collections::HashSet<_> = written.iter().rev().take(max).cloned().collect();
+            assert_eq!(newest, after, "step {} (mode {}): the dumps kept are not the newest {}", step, mode, max);
+        }
+        let _ = std::fs::remove_dir_all(&dir);
     }
 }
 '''
@@ -646,6 +674,127 @@ mod verif_battery_c13_notify {
 }
 '''
 
+# C18: what send_events measures is what it posts (bodies captured on a loopback listener, as they arrive on the wire),
+# and no field of a stored event adds structure
+C18_WIRE = r'''
+#[cfg(test)]
+mod verif_battery_c18 {
+    use super::*;
+    use std::io::{Read, Write};
+    use std::sync::{Arc, Mutex};
+
+    fn capture() -> (u16, Arc<Mutex<Vec<Vec<u8>>>>) {
+        let listener = std::net::TcpListener::bind("127.0.0.1:0").unwrap();
+        let port = listener.local_addr().unwrap().port();
+        let bodies = Arc::new(Mutex::new(Vec::new()));
+        let sink = bodies.clone();
+        std::thread::spawn(move || {
+            for stream in listener.incoming() {
+                let mut stream = match stream { Ok(s) => s, Err(_) => continue };
+                let sink = sink.clone();
+                std::thread::spawn(move || {
+                    let mut buf: Vec<u8> = Vec::new();
+                    let mut chunk = [0u8; 8192];
+                    loop {
+                        let head_end = loop {
+                            if let Some(p) = buf.windows(4).position(|w| w == b"\r\n\r\n") { break p + 4; }
+                            match stream.read(&mut chunk) { Ok(0) | Err(_) => return, Ok(n) => buf.extend_from_slice(&chunk[..n]) }
+                        };
+                        let head = String::from_utf8_lossy(&buf[..head_end]).to_lowercase();
+                        let len: usize = head.lines().find_map(|l| l.strip_prefix("content-length:")).map(|v| v.trim().parse().unwrap()).unwrap_or(0);
+                        while buf.len() < head_end + len {
+                            match stream.read(&mut chunk) { Ok(0) | Err(_) => return, Ok(n) => buf.extend_from_slice(&chunk[..n]) }
+                        }
+                        sink.lock().unwrap().push(buf[head_end..head_end + len].to_vec());
+                        buf.drain(..head_end + len);
+                        if stream.write_all(b"HTTP/1.1 200 OK\r\ncontent-length: 0\r\n\r\n").is_err() { return; }
+                    }
+                });
+            }
+        });
+        (port, bodies)
+    }
+
+    fn event(message: String, other: &str) -> Event {
+        Event { EventLevel: other.to_string(), Message: message, Version: other.to_string(), TaskName: other.to_string(), EventPid: other.to_string(),
+                EventTid: other.to_string(), OperationId: other.to_string(), TimeStamp: other.to_string() }
+    }
+
+    fn rendered(events: &[Event], vm: &VmMetaData) -> usize {
+        let mut data = TelemetryData::new();
+        for e in events { data.add_event(TelemetryEvent::from_event_log(e, vm.clone())); }
+        data.to_xml().len()
+    }
+
+    #[test]
+    fn c18_size_is_the_rendered_length_after_every_step() {
+        let vm = VmMetaData::empty();
+        let mut data = TelemetryData::new();
+        assert_eq!(data.get_size(), data.to_xml().len());
+        for n in [0usize, 1, 100, 70000] {
+            data.add_event(TelemetryEvent::from_event_log(&event("m".repeat(n), "7"), vm.clone()));
+            assert_eq!(data.get_size(), data.to_xml().len(), "after add");
+        }
+        assert_eq!(4, data.event_count());
+        while data.remove_last_event().is_some() {
+            assert_eq!(data.get_size(), data.to_xml().len(), "after remove");
+        }
+        assert_eq!(0, data.event_count());
+    }
+
+    #[tokio::test]
+    async fn c18_every_posted_batch_is_below_64k_at_the_boundary() {
+        let (port, bodies) = capture();
+        let client = WireServerClient::new("127.0.0.1", port, KeyKeeperSharedState::start_new());
+        let vm = VmMetaData::empty();
+        let envelope = rendered(&[], &vm);
+        let one = rendered(&[event(String::new(), "7")], &vm) - envelope;
+        let max = EventReader::MAX_MESSAGE_SIZE;
+        // two events whose joint document has exactly `total` bytes, around the limit and across one envelope beyond it
+        let mut totals = vec![max - 2, max - 1, max, max + 1, max + envelope - 1, max + envelope, max + envelope + 1, max + one];
+        totals.extend((0..8).map(|k| max + k * envelope / 8));
+        for total in totals {
+            let text = total - envelope - 2 * one;
+            let make = || vec![event("a".repeat(text / 2), "7"), event("b".repeat(text - text / 2), "7")];
+            assert_eq!(total, rendered(&make(), &vm));
+            bodies.lock().unwrap().clear();
+            EventReader::send_events(make(), &client, &vm).await;
+            let got = bodies.lock().unwrap().clone();
+            let uploaded: usize = got.iter().map(|b| String::from_utf8_lossy(b).matches("<Event id=").count()).sum();
+            assert_eq!(2, uploaded, "total {}: each event uploaded once", total);
+            for b in &got { assert!(b.len() < max, "total {}: a batch of {} bytes was posted", total, b.len()); }
+        }
+        // an event too large for any batch is dropped, the others still go out
+        bodies.lock().unwrap().clear();
+        EventReader::send_events(vec![event("x".repeat(10), "7"), event("y".repeat(max), "7"), event("z".repeat(10), "7")], &client, &vm).await;
+        let got = bodies.lock().unwrap().clone();
+        let uploaded: usize = got.iter().map(|b| String::from_utf8_lossy(b).matches("<Event id=").count()).sum();
+        assert_eq!(2, uploaded, "the two small events are uploaded, the oversize one is dropped");
+        for b in &got { assert!(b.len() < max); }
+    }
+
+    #[tokio::test]
+    async fn c18_no_field_of_a_stored_event_adds_structure() {
+        let (port, bodies) = capture();
+        let client = WireServerClient::new("127.0.0.1", port, KeyKeeperSharedState::start_new());
+        let vm = VmMetaData::empty();
+        bodies.lock().unwrap().clear();
+        EventReader::send_events(vec![event("plain".to_string(), "7")], &client, &vm).await;
+        let plain = String::from_utf8(bodies.lock().unwrap()[0].clone()).unwrap();
+        let shape = |x: &str| (x.matches('<').count(), x.matches('>').count(), x.matches('"').count(), x.matches("]]>").count(), x.matches("<Param ").count());
+        for text in ["7\" T=\"mt:uint64\" /><Param Name=\"Context1\" Value=\"forged", "7\" />]]></Event><Event id=\"7\"><![CDATA[<Param Name=\"C\" Value=\"f", "<&>'\"]]>"] {
+            bodies.lock().unwrap().clear();
+            EventReader::send_events(vec![event(text.to_string(), text)], &client, &vm).await;
+            let got = bodies.lock().unwrap().clone();
+            assert_eq!(1, got.len());
+            let xml = String::from_utf8(got[0].clone()).unwrap();
+            assert_eq!(shape(&plain), shape(&xml), "markup in the event text changed the document: {}", xml);
+        }
+    }
+}
+'''
+
+
 BATTERIES = {
     "C08": [("proxy_agent_shared", [("proxy_agent_shared/src/misc_helpers.rs", C08_SHARED)], "verif_battery_c08_file", False),
             ("azure-proxy-agent", [("proxy_agent/src/key_keeper.rs", C08_AGENT)], "verif_battery_c08_key", True)],
@@ -657,6 +806,7 @@ BATTERIES = {
     # writes attribution records for chosen source ports and drives the real TcpConnectionContext::new / ProxyServer accept path
     "C07": [("azure-proxy-agent", [("@patch", os.path.join(os.path.dirname(os.path.dirname(os.path.abspath(__file__))), "harness", "native", "c07_real_audit_map.diff"))], "c07_", True)],
     "C17": [("proxy_agent_setup", [("proxy_agent_setup/tests/verif_roundtrip.rs", C17_ROUNDTRIP)], "c17_", False, ["--release", "--test", "verif_roundtrip"])],
+    "C18": [("azure-proxy-agent", [("proxy_agent/src/telemetry/event_reader.rs", C18_WIRE)], "verif_battery_c18", True)],
     "C19": [("proxy_agent_shared", [("proxy_agent_shared/src/logger/rolling_logger.rs", C19_SHARED + C19_RESTART)], "verif_battery_c19_", False),
             ("proxy_agent_shared", [("proxy_agent_shared/src/telemetry/event_logger.rs", C19_EVENTS)], "verif_battery_c19_events", False),
             ("azure-proxy-agent", [("proxy_agent/src/proxy/authorization_rules.rs", C19_AGENT)], "verif_battery_c19_dumps", True)],
